@@ -680,7 +680,7 @@ func (u *Unit) makeSlice(st *State, fr *Frame, in *ssa.MakeSlice) Val {
 	l := u.get(st, fr, in.Len).(*Term)
 	c := u.get(st, fr, in.Cap).(*Term)
 	et := in.Type().Underlying().(*types.Slice).Elem()
-	u.safety(st, fr, in.Pos(), "make: size out of range", And(Le(IntLit(0), l), Le(l, c), Le(c, BigLit(MaxLen))))
+	u.safety(st, fr, in.Pos(), "make: size out of range", And(Le(IntLit(0), l), Le(l, c), Le(c, BigLit(MaxAlloc))))
 	if isByte(et) {
 		r := u.allocBytes(st)
 		return SliceV{Blk: r.Blk, Off: IntLit(0), Len: l, Cap: c, Elem: et}
